@@ -33,15 +33,11 @@ def rows (n m q : Nat) (addr : List (List Nat)) : List (List Nat) :=
 /-- `Code::h()` -/
 def h (n m q : Nat) (addr : List (List Nat)) : SM := ⟨rows n m q addr, cols n m q addr⟩
 
-/-- fast computation of the rows from the columns (arrays; used by the executable checks) -/
-def rowsFast (m : Nat) (cs : List (List Nat)) : Array (List Nat) := Id.run do
-  let mut rows : Array (List Nat) := Array.replicate m []
-  let mut c := 0
-  for col in cs do
-    for r in col do
-      rows := rows.modify r (fun l => c :: l)
-    c := c + 1
-  return rows.map List.reverse
+/-- fast computation of the rows from the columns (one pass, arrays; used by the executable checks):
+row `r` = the indices of the columns containing `r`, ascending -/
+def rowsFast (m : Nat) (cs : List (List Nat)) : Array (List Nat) :=
+  (cs.zipIdx.foldl (fun (rows : Array (List Nat)) p =>
+      p.1.foldl (fun rows r => rows.modify r (fun l => p.2 :: l)) rows) (Array.replicate m [])).map List.reverse
 
 /-- the rows computed in one pass over the information columns (same lists as `rows`, see C06.rows_fast_eq) -/
 def rowsFastModel (n m q : Nat) (addr : List (List Nat)) : List (List Nat) :=
